@@ -33,6 +33,14 @@ func checkC11(r *core.Run) {
 
 func c11Snapshot(r *core.Run, p *core.Program) {
 	const rule = "R-C11-snapshot"
+	// an aborted snapshot is never installed, whichever of the writer's two receive sites gets the notice
+	if sv := p.Func("lib/utxo.(*UnspentDB).save"); sv != nil {
+		for _, f := range sv.AnonFuncs {
+			if len(an.CallsTo(f, false, "os.Create")) > 0 {
+				snapshotAbortNotice(r, p, rule, f)
+			}
+		}
+	}
 	la := an.NewLockAnalysis(p)
 	// writers of the set
 	writers := map[*ssa.Function]bool{}
